@@ -1,6 +1,6 @@
 //! C07: compilation is deterministic.
 //!
-//! request : C07.repeat \t <dx|vk|vkba|msl> \t <all|nopipeline> \t <gen:<seed> | disk:<root>|<entry>>
+//! request : C07.repeat \t <dx|vk|vkba|msl> \t <all|nopipeline> \t <gen:<seed> | clash:<seed> | disk:<root>|<entry>>
 //! observe : digest of sources + stages + metadata + pipeline state (or of the diagnostic)
 //! oracle  : the same input compiled 5x in this process and once in each of 3 fresh processes (different
 //!           std RandomState seeds for every HashMap/HashSet instance) gives byte-identical results.
@@ -13,12 +13,65 @@ fn source_of(id: &str) -> Option<(Option<(String, String)>, Option<String>)> {
         let seed: u64 = seed.parse().ok()?;
         let prog = gen_program(&mut Rng::new(seed), &stress_opts());
         Some((None, Some(render(&prog, &|_| true))))
+    } else if let Some(seed) = id.strip_prefix("clash:") {
+        let seed: u64 = seed.parse().ok()?;
+        Some((None, Some(clash_program(&mut Rng::new(seed)))))
     } else if let Some(rest) = id.strip_prefix("disk:") {
         let (root, entry) = rest.split_once('|')?;
         Some((Some((root.to_string(), entry.to_string())), None))
     } else {
         None
     }
+}
+
+/// Programs whose emitted names need generated suffixes in several scopes at once: the same
+/// overloaded / target-reserved base names declared in the global scope and in 2-4 namespaces,
+/// plus structs and globals sharing those names across scopes.
+fn clash_program(rng: &mut Rng) -> String {
+    let bases = ["pick", "main", "kernel", "select", "vertex", "fragment", "float16_t", "helper", "constant", "device"];
+    let nns = rng.range(2, 4) as usize;
+    let nbases = rng.range(1, 3) as usize;
+    let mut chosen: Vec<&str> = Vec::new();
+    while chosen.len() < nbases {
+        let b = *rng.pick(&bases);
+        if !chosen.contains(&b) {
+            chosen.push(b);
+        }
+    }
+    let mut s = String::from("static int s_total = 0;\n");
+    let mut calls: Vec<String> = Vec::new();
+    let scopes: Vec<Option<String>> = std::iter::once(None).chain((0..nns).map(|k| Some(format!("ns{}", k)))).collect();
+    for scope in &scopes {
+        if let Some(ns) = scope {
+            s.push_str(&format!("namespace {}\n{{\n", ns));
+        }
+        for b in &chosen {
+            if scope.is_none() && rng.chance(1, 2) {
+                continue;
+            }
+            let overloads = rng.range(1, 3);
+            let tys = ["int", "float", "uint"];
+            for o in 0..overloads {
+                let ty = tys[o as usize];
+                s.push_str(&format!("{} {}({} x)\n{{\n    s_total = s_total + 1;\n    return x;\n}}\n", ty, b, ty));
+                let arg = match ty { "int" => "1", "float" => "1.0f", _ => "1u" };
+                let q = match scope { Some(ns) => format!("{}::", ns), None => String::new() };
+                calls.push(format!("    {}{}({});\n", q, b, arg));
+            }
+        }
+        if rng.chance(1, 2) {
+            s.push_str("struct Data\n{\n    float value;\n};\n");
+        }
+        if scope.is_some() {
+            s.push_str("}\n");
+        }
+    }
+    s.push_str("[numthreads(1, 1, 1)]\nvoid entry()\n{\n");
+    for c in &calls {
+        s.push_str(c);
+    }
+    s.push_str("}\nPipeline P\n{\n    ComputeShader = entry;\n}\n");
+    s
 }
 
 fn stress_opts() -> GenOpts {
@@ -81,7 +134,7 @@ fn run_requests(lines: &[String], out: &mut Out, hist: &mut Hist) {
         }
         hist.add(&format!("target={}", t.name()));
         hist.add(if d0.starts_with("ok") { "outcome=ok" } else if d0.starts_with("err") { "outcome=err" } else { "outcome=panic" });
-        hist.add(if id.starts_with("gen:") { "source=generated" } else { "source=repo-corpus" });
+        hist.add(if id.starts_with("gen:") { "source=generated" } else if id.starts_with("clash:") { "source=name-clash" } else { "source=repo-corpus" });
         first.push(d0);
         fails.push(fail);
     }
@@ -141,6 +194,12 @@ pub fn run(args: &Args, out: &mut Out) {
         let mode = if probe.pipes.is_empty() { "nopipeline" } else { "all" };
         for t in ALL_TARGETS {
             lines.push(format!("C07.repeat\t{}\t{}\tgen:{}", t.name(), mode, seed));
+        }
+    }
+    for _ in 0..n / 2 {
+        let seed = rng.next() >> 16;
+        for t in [Tgt::Dx, Tgt::Msl] {
+            lines.push(format!("C07.repeat\t{}\tall\tclash:{}", t.name(), seed));
         }
     }
     // the repository's own inputs
